@@ -73,7 +73,7 @@ func TestVerifC17VcJwt(t *testing.T) {
 	defer func() { ops.Flush(); impl.Flush(); opsF.Close(); implF.Close() }()
 	n := 0
 
-	issuers := []*tokenV2.VKey{tokenV2.VNewKey("p256", "alice"), tokenV2.VNewKey("ed", "bob"), tokenV2.VNewKey("rsa", "carol")}
+	issuers := []*tokenV2.VKey{tokenV2.VNewKey("p256", "alice"), tokenV2.VNewKey("ed", "bob"), tokenV2.VNewKey("rsa", "carol"), tokenV2.VNewKey("p521", "erin")}
 	mallory := tokenV2.VNewKey("p256", "mallory") // a party with a DID of his own (resolvable), not the issuer
 	source := map[string]crypto.PublicKey{}
 	didOf := func(k *tokenV2.VKey) string { return "did:web:example.com:iam:" + k.KeyName() }
